@@ -1290,6 +1290,101 @@ def rule_r14(prog, res):
     res.floor('R14', 'funnelling handlers in handle_rpc', n, 2)
 
 
+# ------------------------------------------------------------------ R15
+def rule_r15(prog, res):
+    res.rule('R15', 'SOAP 1.2 faults: element names use the envelope '
+             'namespace, every fault writer leaves the first slot to Code, '
+             'byte messages are decoded, and the reader looks elements up by '
+             'namespace, not by the sender\'s prefix')
+    s12 = prog.cls('spyne.protocol.soap.soap12:Soap12')
+    n = 0
+    for nm, f in sorted(s12.methods.items()):
+        for b in walk_no_defs(f.node):
+            if isinstance(b, ast.BinOp) and isinstance(b.op, ast.Mod) and \
+                    isinstance(b.left, ast.Constant) and isinstance(
+                        b.left.value, str) and \
+                    b.left.value.startswith('{%s}'):
+                n += 1
+                arg = unparse(b.right)
+                ok = arg in ('self.ns_soap_env', '(self.ns_soap_env,)',
+                             'NS_XML', '(NS_XML,)')
+                where = '%s:%d' % (f.module.relpath, b.lineno)
+                if not ok:
+                    res.ob('R15', where, '%s: %s' % (f.qualname, unparse(b)),
+                           'VIOLATED')
+                    res.finding('R15', '%s|tag-namespace|%s' % (f.qualname,
+                                                                arg), where,
+                                '%s builds the element name %s with %s, which '
+                                'is not the envelope namespace (soap_env is '
+                                'the prefix): the element ends up in a '
+                                'namespace no reader knows' % (
+                                    f.qualname, b.left.value, arg))
+        for c in calls_in(f.node):
+            if call_name(c) == '_fault_to_parent_impl' and len(c.args) >= 6:
+                lst = c.args[5]
+                src = lst
+                if isinstance(lst, ast.Name):
+                    vals = [a.value for a in walk_no_defs(f.node)
+                            if isinstance(a, ast.Assign) and any(
+                                isinstance(t, ast.Name) and t.id == lst.id
+                                for t in a.targets)]
+                    src = vals[-1] if vals else None
+                ok = isinstance(src, ast.List) and src.elts and isinstance(
+                    src.elts[0], ast.Constant) and src.elts[0].value is None
+                where = '%s:%d' % (f.module.relpath, c.lineno)
+                res.ob('R15', where, '%s hands %s to _fault_to_parent_impl' %
+                       (f.qualname, 'a list that starts with the Code slot'
+                        if ok else 'a list without the Code slot'),
+                       'ok' if ok else 'VIOLATED')
+                if not ok:
+                    res.finding('R15', '%s|code-slot' % f.qualname, where,
+                                '_fault_to_parent_impl stores the Code element '
+                                'into slot 0 of the list it is given; %s '
+                                'passes a list whose first element is already '
+                                'a child, which Code overwrites' % f.qualname)
+        for c in calls_in(f.node):
+            if call_name(c) in ('find', 'findall', 'xpath', 'iterfind'):
+                for k in c.keywords:
+                    if k.arg == 'namespaces':
+                        srcs = [unparse(k.value)]
+                        if isinstance(k.value, ast.Name):
+                            srcs += [unparse(a.value)
+                                     for a in walk_no_defs(f.node)
+                                     if isinstance(a, ast.Assign) and any(
+                                         isinstance(t, ast.Name) and
+                                         t.id == k.value.id
+                                         for t in a.targets)]
+                        bad = [s_ for s_ in srcs if s_.endswith('.nsmap')]
+                        where = '%s:%d' % (f.module.relpath, c.lineno)
+                        if bad:
+                            res.ob('R15', where, '%s: %s' % (
+                                f.qualname, unparse(c)[:50]), 'VIOLATED')
+                            res.finding('R15', '%s|prefix-lookup' %
+                                        f.qualname, where, '%s resolves the '
+                                        'prefixes of its search path with '
+                                        'the nsmap of the received element '
+                                        '(%s): the fault is readable only if '
+                                        'the sender used the same prefix' % (
+                                            f.qualname, bad[0]))
+    sv = s12.methods.get('schema_validation_error_to_parent')
+    if sv is not None:
+        decodes = any(call_name(c) in ('fromstring', 'decode')
+                      for c in calls_in(sv.node))
+        res.ob('R15', sv.where, 'Soap12.schema_validation_error_to_parent %s '
+               'the byte message' % ('decodes' if decodes else
+                                     'does not decode'),
+               'ok' if decodes else 'VIOLATED')
+        if not decodes:
+            res.finding('R15', 'Soap12.schema_validation_error_to_parent|'
+                        'bytes-message', sv.where, 'the message of a '
+                        'SchemaValidationError is bytes '
+                        '(__validate_lxml encodes it); lxml\'s E() refuses '
+                        'bytes, so every schema-invalid request under '
+                        'Soap12(validator="lxml") raises TypeError out of '
+                        'the request')
+    res.floor('R15', 'element names built in Soap12', n, 6)
+
+
 def run(prog, res, tier):
     res.run_rule(rule_r8, prog, res)
     res.run_rule(rule_r1, prog, res, tier)
@@ -1304,6 +1399,7 @@ def run(prog, res, tier):
     res.run_rule(rule_r12, prog, res)
     res.run_rule(rule_r13, prog, res)
     res.run_rule(rule_r14, prog, res)
+    res.run_rule(rule_r15, prog, res)
 
 
 _A = 'spyne/application.py'
@@ -1314,6 +1410,21 @@ _H = 'spyne/protocol/dictdoc/hier.py'
 _F = 'spyne/model/fault.py'
 
 MUTANTS = [
+    Mutant('soap12-reader-by-sender-prefix', 'R15', 'fire',
+           'spyne/protocol/soap/soap12.py',
+           in_func('Soap12.fault_from_element',
+                   "nsmap = {'soap': self.ns_soap_env}",
+                   "nsmap = element.nsmap"), 'prefix-lookup'),
+    Mutant('soap12-validation-fault-bytes', 'R15', 'fire',
+           'spyne/protocol/soap/soap12.py',
+           in_func('Soap12.schema_validation_error_to_parent',
+                   "            faultstring = html.fromstring(faultstring)."
+                   "text\n", "            pass\n"), 'bytes-message'),
+    Mutant('soap12-validation-fault-no-code-slot', 'R15', 'fire',
+           'spyne/protocol/soap/soap12.py',
+           in_func('Soap12.schema_validation_error_to_parent',
+                   "            None,  # The code tag is put here down the "
+                   "road\n", ""), 'code-slot'),
     Mutant('error-response-keeps-half-built-document', 'R14', 'fire', _W,
            in_func('WsgiApplication.handle_rpc',
                    "            p_ctx.out_document = None\n", ""),
